@@ -9,7 +9,6 @@ package db
 import (
 	"errors"
 	"fmt"
-	"reflect"
 	"strings"
 
 	"github.com/alicebob/sqlittle/sql"
@@ -111,14 +110,15 @@ func newCreateTable(ct sql.CreateTableStmt) *Schema {
 			}
 			if ct.WithoutRowid {
 				// non-rowid primary keys have a special place
-				st.setPK([]IndexColumn{
+				if st.setPK([]IndexColumn{
 					{
 						Column:    c.Name,
 						Collate:   c.Collate,
 						SortOrder: c.PrimaryKeyDir,
 					},
-				})
-				autoindex++
+				}) {
+					autoindex++
+				}
 			} else {
 				if col.Rowid {
 					st.RowidPK = true
@@ -171,8 +171,9 @@ constraint:
 				for _, co := range c.IndexedColumns {
 					st.column(co.Column).Null = false
 				}
-				st.setPK(st.toIndexColumns(c.IndexedColumns))
-				autoindex++
+				if st.setPK(st.toIndexColumns(c.IndexedColumns)) {
+					autoindex++
+				}
 				continue
 			}
 			name := fmt.Sprintf("sqlite_autoindex_%s_%d", st.Table, autoindex)
@@ -225,14 +226,37 @@ func (st *Schema) toIndexColumns(ci []sql.IndexedColumn) []IndexColumn {
 	return cs
 }
 
+// sameIndex is how SQLite decides that a PRIMARY KEY or UNIQUE constraint
+// doesn't need an index of its own: same columns with the same collations.
+// The sort order is not compared.
+func sameIndex(a, b []IndexColumn) bool {
+	if len(a) != len(b) {
+		return false
+	}
+	collate := func(c string) string {
+		if c == "" {
+			return "binary"
+		}
+		return strings.ToLower(c)
+	}
+	for i := range a {
+		if !strings.EqualFold(a[i].Column, b[i].Column) ||
+			a[i].Expression != b[i].Expression ||
+			collate(a[i].Collate) != collate(b[i].Collate) {
+			return false
+		}
+	}
+	return true
+}
+
 // add an index. This is a noop if an equivalent index already exists. Returns
 // whether the indexed got added.
 func (st *Schema) addIndex(pk bool, name string, cols []IndexColumn) bool {
-	if reflect.DeepEqual(st.PK, cols) {
+	if st.PK != nil && sameIndex(st.PK, cols) {
 		return false
 	}
 	for _, ind := range st.Indexes {
-		if reflect.DeepEqual(ind.Columns, cols) {
+		if sameIndex(ind.Columns, cols) {
 			if pk {
 				st.PrimaryKey = ind.Index
 			}
@@ -249,17 +273,22 @@ func (st *Schema) addIndex(pk bool, name string, cols []IndexColumn) bool {
 	return true
 }
 
-// sets the PK key (for non-rowid tables). Deletes any duplicate indexes.
-func (st *Schema) setPK(cols []IndexColumn) {
-	st.PK = cols
+// sets the PK key (for non-rowid tables). If an equivalent constraint index
+// exists already that index is the primary key (in its sort order), and no
+// new index gets made. Returns whether the PK is a new index.
+func (st *Schema) setPK(cols []IndexColumn) bool {
 	for i, ind := range st.Indexes {
-		if reflect.DeepEqual(ind.Columns, cols) {
+		if sameIndex(ind.Columns, cols) {
+			st.PK = ind.Columns
 			st.Indexes = append(st.Indexes[:i], st.Indexes[i+1:]...)
 			if len(st.Indexes) == 0 {
 				st.Indexes = nil // to make test diffs easier
 			}
+			return false
 		}
 	}
+	st.PK = cols
+	return true
 }
 
 // Returns the index of the named column, or -1.
